@@ -400,7 +400,22 @@ def rule_endpoints(ctx):
     E.tcp_from_payload(ctx, ctx.program, "R2", allc)
 
 
+def rule_link_order(ctx):
+    """R2: the unified analyzer's packet parser interprets a frame like the protocol analyzers' parsers do"""
+    from . import _endpoints as E
+    E.link_layer_order(ctx, ctx.program, "R2", ("huginn_net_tcp", "huginn_net_http", "huginn_net_tls", "huginn_net"))
+
+
+def rule_table_routing(ctx):
+    """R1: request observations are matched against the request tables, responses against the response tables (shared with C13.R2)"""
+    from ..engine import report as R
+    from . import C13
+    C13.rule_R2(R.Retag(ctx, "C13."))
+
+
 def run(ctx):
+    rule_table_routing(ctx)
+    rule_link_order(ctx)
     rule_endpoints(ctx)
     rule_coupling(ctx)
     rule_args(ctx)
